@@ -292,6 +292,8 @@ def decide(prop, rep):
 
 
 def write_evidence(prop, rep, exit_code):
+    if os.environ.get("VERIF_NO_EVIDENCE"):
+        return                      # development runs (tools/anchor_coverage.sh) leave the evidence alone
     os.makedirs(os.path.join(VERIF, "evidence"), exist_ok=True)
     ev = {
         "property_id": prop.pid, "tier": rep.tier, "seed": rep.seed, "level": "proof",
